@@ -1,5 +1,647 @@
-//! C08 — not built yet.
+//! C08 — checkpoint transparency: serialise a VM at a line boundary, deserialise it with the same
+//! built-ins (JSON, MessagePack, bincode), continue: same output, same errors, same final values.
+//! Engine: fault enumeration (every line boundary of every program x every format). DESIGN.md §3 C08.
+//!
+//! Oracles
+//!  1. differential: run(P1) in a VM; then run(P2;Q) in that same VM (reference) and in each VM
+//!     obtained from it by serialise+deserialise. Q is an observer that prints every target the
+//!     fragments touch and then closes every open conditional and group one at a time, printing
+//!     again after each close (so values saved in open groups are observed too).
+//!     The single-source run(P;Q) is compared as well (it must equal the reference).
+//!  2. structural: serialise(deserialise(serialise(vm))) == serialise(vm) as canonical JSON values.
+
+use serde_json::{json, Value};
+use vcore::{Acc, Ctx, Level};
+use vtex::{Format, RunOut, FORMATS};
+
+// ---------------------------------------------------------------- fragments
+
+#[derive(Clone, Copy)]
+struct Frag {
+    text: &'static str,
+    /// change of the number of open groups / conditionals
+    dg: i32,
+    dc: i32,
+    /// member of the reduced alphabet (one fragment per state component)
+    core: bool,
+    /// what the fragment leaves behind (used for the vacuity counters, computed from the case)
+    tags: &'static [&'static str],
+}
+
+const fn f(text: &'static str, dg: i32, dc: i32, core: bool, tags: &'static [&'static str]) -> Frag {
+    Frag { text, dg, dc, core, tags }
+}
+
+/// One-line fragments. Every fragment ends in a space, a brace or a character token so that a
+/// changed \endlinechar never glues to a control word.
+const FRAGS: &[Frag] = &[
+    f("\\def\\a{A1}", 0, 0, true, &["def-a", "local"]),
+    f("\\gdef\\a{A2}", 0, 0, false, &["def-a"]),
+    f("\\catcode`\\~=13 \\def~{T1}", 0, 0, true, &["active-def", "local"]),
+    f("\\let~=\\a ", 0, 0, false, &["active-def", "let-a", "local"]),
+    f("\\def\\m#1#2.{#2#1}", 0, 0, false, &["macro-params", "local"]),
+    f("\\let\\b=\\a ", 0, 0, true, &["let-a", "local"]),
+    f("\\let\\c=\\the ", 0, 0, true, &["alias-expansion", "local"]),
+    f("\\let\\d=\\def ", 0, 0, false, &["alias-execution", "local"]),
+    f("\\let\\e=x", 0, 0, false, &["alias-char", "local"]),
+    f("\\let\\newname=\\relax ", 0, 0, false, &["interner", "local"]),
+    f("\\countdef\\f=5 \\f=55 ", 0, 0, true, &["alias-variable", "local"]),
+    f("\\toksdef\\g=6 \\g={tk}", 0, 0, false, &["alias-variable", "local"]),
+    f("\\chardef\\h=72 ", 0, 0, false, &["chardef", "local"]),
+    f("\\mathchardef\\i=73 ", 0, 0, false, &["mathchardef", "local"]),
+    f("\\count1=11 ", 0, 0, false, &["local"]),
+    f("\\dimen1=2pt ", 0, 0, false, &["local"]),
+    f("\\skip1=3pt plus 1fil ", 0, 0, false, &["local"]),
+    f("\\toks1={T}", 0, 0, false, &["local"]),
+    f("\\catcode`\\|=13 ", 0, 0, false, &["local"]),
+    f("\\catcode`\\é=11 ", 0, 0, true, &["high-code", "local"]),
+    f("\\mathcode`\\k=5 ", 0, 0, false, &["local"]),
+    f("\\mathcode`\\é=6 ", 0, 0, false, &["high-code", "local"]),
+    f("\\endlinechar=65 ", 0, 0, false, &["local"]),
+    f("\\globaldefs=1 ", 0, 0, true, &["globaldefs", "local"]),
+    f("\\year=1999 ", 0, 0, false, &["local"]),
+    f("\\scrollmode ", 0, 0, false, &[]),
+    f("{", 1, 0, false, &[]),
+    f("{\\count1=12 \\def\\a{A3}", 1, 0, true, &["def-a", "local"]),
+    f("{\\global\\count1=13 ", 1, 0, false, &[]),
+    f("{\\catcode`\\é=7 ", 1, 0, false, &["high-code", "local"]),
+    f("}", -1, 0, true, &[]),
+    f("\\iftrue ", 0, 1, false, &[]),
+    f("\\iffalse\\else ", 0, 1, true, &[]),
+    f("\\ifcase 1 \\or ", 0, 1, false, &[]),
+    f("\\fi ", 0, -1, true, &[]),
+    f("\\newInt\\n \\n=9 ", 0, 0, false, &["alloc", "local"]),
+    f("\\arr 1=7 ", 0, 0, false, &["alloc", "local"]),
+    f("\\fa ", 0, 0, false, &["font", "local"]),
+    f("{\\fb ", 1, 0, true, &["font", "local"]),
+    f("\\openin 3 f ", 0, 0, false, &["stream"]),
+    f("\\read 3 to \\r ", 0, 0, false, &["read", "local"]),
+];
+
+/// Line 0 of every program (before the first checkpoint): names that the observer reads with \the
+/// must be defined, because \the of an undefined name is a todo!() in texcraft.
+const PRELUDE: &str = "\\countdef\\f=9 \\toksdef\\g=9 \\mathchardef\\i=1 \\chardef\\hh=72 \\newInt\\n \\newIntArray\\arr 3 ";
+
+/// Prints every target. Each item is safe whether or not the name is defined.
+const OBSERVE: &str = ";\\a;\\b;\\c\\hh;\\d\\zz{Z}\\zz;\\e;\\the\\f;\\the\\g;\\h;\\the\\i;\\m12.;\\newname;\\the\\n;\\the\\arr 1 ;\\r;\\ifeof 3 c\\else o\\fi;\\the\\count1 ;\\the\\dimen1 ;\\the\\skip1 ;\\the\\toks1 ;\\the\\count5 ;\\the\\toks6 ;\\the\\catcode`\\| ;\\the\\catcode`\\é ;\\the\\mathcode`\\k ;\\the\\mathcode`\\é ;\\the\\endlinechar ;\\the\\globaldefs ;\\the\\year ;\\probefont;~;|;";
+
+/// two plain lines first: a restored lexer that forgets it is past its first line merges them
+const FILE_F: &str = "r1\nr2\n{r3\nr4}\nr5\n";
+
+fn observer(open_conds: i32, open_groups: i32) -> Vec<String> {
+    let mut lines = vec![OBSERVE.to_string()];
+    for _ in 0..open_conds {
+        lines.push(format!("\\fi {OBSERVE}"));
+    }
+    for _ in 0..open_groups {
+        lines.push(format!("}}{OBSERVE}"));
+    }
+    lines
+}
+
+fn join(lines: &[String]) -> String {
+    lines.iter().map(|l| format!("{l}\n")).collect()
+}
+
+// ---------------------------------------------------------------- stream steps (second family)
+
+const STREAM_STEPS: &[&str] = &[
+    "\\openin 3 f ",
+    "\\openin 4 g ",
+    "\\read 3 to \\x [\\x]",
+    "\\read 4 to \\y [\\y]",
+    "\\ifeof 3 c\\else o\\fi ",
+    "\\ifeof 4 c\\else o\\fi ",
+    "\\closein 3 ",
+    "{\\read 3 to \\x ",
+    "}[\\x]",
+    "\\global\\read 4 to \\y ",
+    "\\input g ",
+];
+const STREAM_FILES: &[(&str, &str)] = &[("f.tex", "l1\n{l2\nl3}\nl4\n"), ("g.tex", "m1\nm2\nm3")];
+
+// ---------------------------------------------------------------- one case
+
+struct Case {
+    family: &'static str,
+    /// lines of P (line 0 may be a prelude that is never a checkpoint boundary on its own)
+    p: Vec<String>,
+    /// lines of Q
+    q: Vec<String>,
+    /// first boundary that is a checkpoint (boundary k = after line k-1 of P)
+    first_boundary: usize,
+    /// boundaries at which oracle 2 (canonical JSON) is evaluated too
+    json_boundaries: Vec<usize>,
+    files: &'static [(&'static str, &'static str)],
+    sel: Value,
+}
+
+fn fresh(files: &[(&str, &str)]) -> Box<vtex::Vm> {
+    let vm = vtex::new_vm();
+    for (n, c) in files {
+        vm.state.env.fs.borrow().add(n, c);
+    }
+    vm
+}
+
+/// Canonical form of a serialised VM: containers whose order is the subject's hash order are made
+/// order-independent. (1) `commands_map.macros` is a table indexed by `{"Macro": u}` entries whose
+/// numbering follows a HashMap iteration: references are replaced by the macro itself and the table
+/// by its length. (2) every list in `save_stack[*]` is a set of (variable, index, value) triples.
+fn canonical(mut v: Value) -> Value {
+    let macros = v["commands_map"]["macros"].as_array().cloned().unwrap_or_default();
+    fn inline(x: &mut Value, macros: &[Value]) {
+        match x {
+            Value::Object(o) => {
+                if o.len() == 1 {
+                    if let Some(u) = o.get("Macro").and_then(|u| u.as_u64()) {
+                        let m = macros.get(u as usize).cloned().unwrap_or(json!("<dangling macro index>"));
+                        o.insert("Macro".into(), m);
+                        return;
+                    }
+                }
+                for (_, y) in o.iter_mut() {
+                    inline(y, macros);
+                }
+            }
+            Value::Array(a) => {
+                for y in a.iter_mut() {
+                    inline(y, macros);
+                }
+            }
+            _ => {}
+        }
+    }
+    if let Some(cm) = v.get_mut("commands_map") {
+        for key in ["commands", "active_char"] {
+            if let Some(c) = cm.get_mut(key) {
+                inline(c, &macros);
+            }
+        }
+        cm["macros"] = json!({"count": macros.len()});
+    }
+    if let Some(ss) = v.get_mut("save_stack").and_then(|s| s.as_array_mut()) {
+        for level in ss.iter_mut() {
+            if let Some(o) = level.as_object_mut() {
+                for (_, list) in o.iter_mut() {
+                    if let Some(a) = list.as_array_mut() {
+                        a.sort_by_key(|x| x.to_string());
+                    }
+                }
+            }
+        }
+    }
+    v
+}
+
+fn first_diff(a: &Value, b: &Value, path: String) -> Option<String> {
+    match (a, b) {
+        (Value::Object(x), Value::Object(y)) => {
+            for k in x.keys().chain(y.keys()) {
+                match (x.get(k), y.get(k)) {
+                    (Some(p), Some(q)) => {
+                        if let Some(d) = first_diff(p, q, format!("{path}.{k}")) {
+                            return Some(d);
+                        }
+                    }
+                    (p, q) => return Some(format!("{path}.{k}: {} vs {}", p.map(|v| vcore::compact(v, 120)).unwrap_or("<absent>".into()), q.map(|v| vcore::compact(v, 120)).unwrap_or("<absent>".into()))),
+                }
+            }
+            None
+        }
+        (Value::Array(x), Value::Array(y)) => {
+            if x.len() != y.len() {
+                return Some(format!("{path}: {} items vs {} items", x.len(), y.len()));
+            }
+            for (i, (p, q)) in x.iter().zip(y.iter()).enumerate() {
+                if let Some(d) = first_diff(p, q, format!("{path}[{i}]")) {
+                    return Some(d);
+                }
+            }
+            None
+        }
+        _ => {
+            if a == b {
+                None
+            } else {
+                Some(format!("{path}: {} vs {}", vcore::compact(a, 120), vcore::compact(b, 120)))
+            }
+        }
+    }
+}
+
+#[derive(Debug)]
+struct Failure {
+    boundary: usize,
+    format: Option<Format>,
+    expected: String,
+    observed: String,
+    note: String,
+}
+
+/// Everything one execution of a case can find. `reference_ok` = the un-checkpointed runs agree.
+fn execute_case(c: &Case, acc: Option<&mut Acc>) -> Vec<Failure> {
+    let mut fails = vec![];
+    let mut local = Acc::default();
+    let all: Vec<String> = c.p.iter().chain(c.q.iter()).cloned().collect();
+    // single-source run of the whole program
+    let whole = vcore::catch(|| {
+        let mut vm = fresh(c.files);
+        vtex::run(&mut vm, &join(&all))
+    });
+    for k in c.first_boundary..=c.p.len() {
+        let p1 = join(&all[..k]);
+        let p2 = join(&all[k..]);
+        local.count("checkpoints");
+        // P1 in a fresh VM
+        let mut vm = fresh(c.files);
+        let o1 = match vcore::catch(|| vtex::run(&mut vm, &p1)) {
+            Ok(o) => o,
+            Err(p) => {
+                if p.cutoff {
+                    local.cutoffs += 1;
+                } else {
+                    // not a checkpoint matter (C09 owns totality); nothing to checkpoint
+                    local.skipped += 1;
+                    local.class(&format!("P1 panics: {}", p.site()));
+                }
+                continue;
+            }
+        };
+        if o1.err.is_some() {
+            // a VM that stopped with a fatal error is not a checkpoint state of the property
+            local.skipped += 1;
+            local.class("P1 ends with a fatal error (no checkpoint taken)");
+            continue;
+        }
+        // oracle 2 input + the three restored VMs, all taken before the reference continues
+        let json_here = c.json_boundaries.contains(&k);
+        let v0 = if json_here { vcore::catch(|| canonical(vtex::to_json_value(&vm))).ok() } else { None };
+        let mut restored: Vec<(Format, Result<Box<vtex::Vm>, vcore::Panic>)> = vec![];
+        for fmt in FORMATS {
+            restored.push((fmt, vcore::catch(|| vtex::checkpoint(&vm, fmt))));
+        }
+        // reference: the same VM continues without a checkpoint
+        let reference = vcore::catch(|| vtex::run(&mut vm, &p2));
+        let reference = match reference {
+            Ok(r) => r,
+            Err(p) => {
+                if p.cutoff {
+                    local.cutoffs += 1;
+                } else {
+                    local.skipped += 1;
+                    local.class(&format!("reference continuation panics: {}", p.site()));
+                }
+                continue;
+            }
+        };
+        // Splitting the source is not a checkpoint yet. run(P;Q) differs from run(P1);run(P2;Q) exactly
+        // when the last command of P1 scans past the end of its line (e.g. a file name glued to a
+        // letter \endlinechar): then "pending input exhausted" holds only for the split run, which is
+        // the property's situation. Recorded, never attributed to serialisation.
+        if let Ok(w) = &whole {
+            let glued = RunOut { out: format!("{}{}", o1.out, reference.out), err: reference.err.clone() };
+            if *w != glued {
+                local.count("split_alone_changes_behaviour");
+                local.class(&format!("single-source run differs from the split run without any checkpoint (last line of P1: `{}`)", all[k - 1]));
+            }
+        }
+        local.class(&format!("reference: {}", if reference.err.is_some() { "ends with error" } else { "completes" }));
+        for (fmt, r) in restored {
+            local.count("round_trips");
+            let mut vm2 = match r {
+                Ok(v) => v,
+                Err(p) => {
+                    fails.push(Failure { boundary: k, format: Some(fmt), expected: "serialise + deserialise succeed".into(), observed: p.describe(), note: "panic in serialise/deserialise".into() });
+                    continue;
+                }
+            };
+            if let Some(v0) = &v0 {
+                local.count("json_roundtrips_compared");
+                match vcore::catch(|| canonical(vtex::to_json_value(&vm2))) {
+                    Ok(v2) => {
+                        if *v0 != v2 {
+                            fails.push(Failure { boundary: k, format: Some(fmt), expected: "ser(de(ser(vm))) == ser(vm) as canonical JSON".into(), observed: first_diff(v0, &v2, "vm".into()).unwrap_or_default(), note: "the restored VM serialises differently from the original".into() });
+                        }
+                    }
+                    Err(p) => fails.push(Failure { boundary: k, format: Some(fmt), expected: "the restored VM can be serialised".into(), observed: p.describe(), note: "panic serialising the restored VM".into() }),
+                }
+            }
+            match vcore::catch(|| vtex::run(&mut vm2, &p2)) {
+                Ok(got) => {
+                    if got != reference {
+                        fails.push(Failure { boundary: k, format: Some(fmt), expected: reference.show(), observed: got.show(), note: "continuation after the checkpoint differs from the continuation without it".into() });
+                    }
+                }
+                Err(p) if p.cutoff => local.cutoffs += 1,
+                Err(p) => fails.push(Failure { boundary: k, format: Some(fmt), expected: reference.show(), observed: p.describe(), note: "continuation after the checkpoint panics".into() }),
+            }
+        }
+    }
+    if let Some(acc) = acc {
+        acc.merge(local);
+    }
+    fails
+}
+
+const REEXEC: usize = 5;
+
+fn run_case(idx: u64, c: &Case, nontrivial_boundaries: u64, acc: &mut Acc) {
+    acc.eval();
+    if nontrivial_boundaries > 0 {
+        acc.nontrivial();
+    }
+    let fails = execute_case(c, Some(&mut *acc));
+    if fails.is_empty() {
+        return;
+    }
+    // the subject's hash order cannot be seeded: re-execute, any failing execution is a counterexample
+    let mut failing = 1;
+    for _ in 1..REEXEC {
+        if !execute_case(c, None).is_empty() {
+            failing += 1;
+        }
+    }
+    let first = &fails[0];
+    let case = json!({
+        "family": c.family, "sel": c.sel, "P": c.p, "Q": c.q, "first_boundary": c.first_boundary, "json_boundaries": c.json_boundaries,
+        "files": c.files.iter().map(|(n, t)| json!([n, t])).collect::<Vec<_>>(),
+        "failing_checkpoints": fails.iter().map(|f| json!({"after_line": f.boundary, "format": f.format.map(|x| format!("{x:?}")), "note": f.note})).collect::<Vec<_>>(),
+        "executions_failing": format!("{failing}/{REEXEC}"), "order_dependent": failing < REEXEC,
+        "test_body": format!("let mut vm = vtex::new_vm(); /* files: {:?} */ vtex::run(&mut vm, {:?}); let mut vm2 = vtex::checkpoint(&vm, vtex::Format::{:?}); assert_eq!(vtex::run(&mut vm, {:?}), vtex::run(&mut vm2, {:?}));",
+            c.files.iter().map(|x| x.0).collect::<Vec<_>>(), join(&c.p[..first.boundary.min(c.p.len())]), first.format.unwrap_or(Format::Json),
+            join(&c.p[first.boundary.min(c.p.len())..].iter().chain(c.q.iter()).cloned().collect::<Vec<_>>()), "<same>"),
+    });
+    acc.class(&format!("FAIL after line `{}`: {}", c.p.get(first.boundary.wrapping_sub(1)).map(|s| s.as_str()).unwrap_or(""), first.note));
+    acc.fail(idx, case, &first.expected, &first.observed, format!("checkpoint after line {} of P ({:?}): {}; {} failing checkpoint(s) in this program; {failing}/{REEXEC} executions fail", first.boundary, first.format, first.note, fails.len()));
+}
+
+// ---------------------------------------------------------------- fragment programs
+
+/// Counters computed from the fragments before the checkpoint (never from the implementation).
+fn count_state(frs: &[&Frag], acc: &mut Acc) -> bool {
+    let mut groups: Vec<bool> = vec![]; // per open group: a local assignment happened in it
+    let mut conds = 0;
+    let mut globaldefs = false;
+    let mut any_def = false;
+    let mut a_defined = false;
+    let mut shared = false;
+    let mut tags: Vec<&str> = vec![];
+    for fr in frs {
+        if fr.dg > 0 {
+            groups.push(false);
+        }
+        if fr.tags.contains(&"local") {
+            any_def = true;
+            if !globaldefs {
+                if let Some(g) = groups.last_mut() {
+                    *g = true;
+                }
+            }
+        }
+        if fr.tags.contains(&"def-a") {
+            a_defined = true;
+        }
+        if fr.tags.contains(&"let-a") && a_defined {
+            shared = true;
+        }
+        if fr.tags.contains(&"globaldefs") {
+            globaldefs = true;
+        }
+        if fr.dg < 0 {
+            groups.pop();
+            // definitions made in the group may be gone: be conservative about \a
+            a_defined = false;
+        }
+        conds += fr.dc;
+        for t in fr.tags {
+            if !tags.contains(t) {
+                tags.push(t);
+            }
+        }
+    }
+    if groups.iter().any(|g| *g) {
+        acc.count("save_stack_nonempty_at_checkpoint");
+    }
+    if !groups.is_empty() {
+        acc.count("open_group_at_checkpoint");
+    }
+    if conds > 0 {
+        acc.count("open_conditional_at_checkpoint");
+    }
+    if shared {
+        acc.count("macro_shared_by_two_names");
+    }
+    for (t, name) in [
+        ("alias-expansion", "alias_of_expansion_primitive"),
+        ("alias-execution", "alias_of_execution_primitive"),
+        ("alias-char", "alias_of_character_token"),
+        ("alias-variable", "alias_of_register"),
+        ("active-def", "active_character_definition"),
+        ("high-code", "high_code_table_entry"),
+        ("stream", "open_read_stream"),
+        ("font", "font_selected"),
+        ("alloc", "allocated_variable"),
+        ("macro-params", "macro_with_parameters"),
+    ] {
+        if tags.contains(&t) {
+            acc.count(name);
+        }
+    }
+    !groups.is_empty() || conds > 0 || any_def
+}
+
+fn frag_case(family: &'static str, alphabet: &[usize], digits: &[u64], json_last: bool) -> Option<(Case, Vec<&'static Frag>)> {
+    let frs: Vec<&'static Frag> = digits.iter().map(|d| &FRAGS[alphabet[*d as usize]]).collect();
+    let (mut g, mut c) = (0, 0);
+    for fr in &frs {
+        g += fr.dg;
+        c += fr.dc;
+        if g < 0 || c < 0 {
+            return None;
+        }
+    }
+    let mut p = vec![PRELUDE.to_string()];
+    p.extend(frs.iter().map(|f| f.text.to_string()));
+    let n = p.len();
+    Some((
+        Case { family, p, q: observer(c, g), first_boundary: 2, json_boundaries: if json_last { vec![n] } else { vec![] }, files: &[("f.tex", FILE_F)], sel: json!({"alphabet": alphabet, "digits": digits, "json_last": json_last}) },
+        frs,
+    ))
+}
+
+#[derive(Clone, Copy, PartialEq)]
+enum JsonOracle {
+    Never,
+    Always,
+    /// only for programs made of core fragments (budget: ~110 ms per boundary for 4 JSON values of a 2.9 MB VM)
+    CoreOnly,
+}
+
+fn run_frag_family(ctx: &mut Ctx, name: &'static str, bounds: &str, alphabet: Vec<usize>, len: usize, json: JsonOracle, only_last_boundary: bool) {
+    let k = alphabet.len() as u64;
+    let n = k.pow(len as u32);
+    ctx.family(name, bounds, n, |idx, acc| {
+        let d = vcore::digits(idx, &vec![k; len]);
+        let json_last = match json {
+            JsonOracle::Never => false,
+            JsonOracle::Always => true,
+            JsonOracle::CoreOnly => d.iter().all(|x| FRAGS[alphabet[*x as usize]].core),
+        };
+        match frag_case(name, &alphabet, &d, json_last) {
+            None => acc.skipped += 1,
+            Some((mut case, frs)) => {
+                if only_last_boundary {
+                    case.first_boundary = case.p.len();
+                }
+                if len == 1 {
+                    // the 1-fragment programs also checkpoint the state left by the prelude line alone
+                    case.first_boundary = 1;
+                }
+                let mut nt = 0;
+                for b in case.first_boundary..=case.p.len() {
+                    let mut tmp = Acc::default();
+                    if count_state(&frs[..b - 1], &mut tmp) {
+                        nt += 1;
+                    }
+                    acc.merge(tmp);
+                }
+                run_case(idx, &case, nt, acc);
+                if idx % 997 == 498 {
+                    acc.sample(idx, || json!({"family": name, "P": case.p, "Q": case.q, "checkpoints_after_lines": (case.first_boundary..=case.p.len()).collect::<Vec<_>>(), "formats": ["Json", "MessagePack", "Bincode"]}));
+                }
+            }
+        }
+    });
+}
+
+fn stream_case(digits: &[u64]) -> Option<Case> {
+    let seq: Vec<&str> = digits.iter().map(|d| STREAM_STEPS[*d as usize]).collect();
+    let mut depth = 0i32;
+    for s in &seq {
+        if s.starts_with('{') {
+            depth += 1;
+        }
+        if s.starts_with('}') {
+            depth -= 1;
+            if depth < 0 {
+                return None;
+            }
+        }
+    }
+    let tail = format!("{}[\\x][\\y]\\ifeof 3 c\\else o\\fi \\ifeof 4 c\\else o\\fi ", "}".repeat(depth as usize));
+    Some(Case { family: "open-read-streams", p: seq.iter().map(|s| s.to_string()).collect(), q: vec![tail], first_boundary: 1, json_boundaries: vec![], files: STREAM_FILES, sel: json!({"digits": digits}) })
+}
+
+// ---------------------------------------------------------------- main
+
 fn main() {
-    eprintln!("c08: check not built yet");
-    std::process::exit(2);
+    let mut ctx = Ctx::new("C08", Level::FaultEnumeration);
+
+    if let Some((_fam, case)) = ctx.replay_case() {
+        let mut acc = Acc::default();
+        let digits: Vec<u64> = case["sel"]["digits"].as_array().map(|a| a.iter().filter_map(|x| x.as_u64()).collect()).unwrap_or_default();
+        let c = if case["family"] == "open-read-streams" {
+            stream_case(&digits)
+        } else {
+            let alphabet: Vec<usize> = case["sel"]["alphabet"].as_array().map(|a| a.iter().filter_map(|x| x.as_u64().map(|v| v as usize)).collect()).unwrap_or_default();
+            frag_case("replay", &alphabet, &digits, case["sel"]["json_last"].as_bool().unwrap_or(false)).map(|(mut c, _)| {
+                c.first_boundary = case["first_boundary"].as_u64().unwrap_or(2) as usize;
+                c
+            })
+        };
+        match c {
+            Some(c) => run_case(0, &c, 1, &mut acc),
+            None => {
+                eprintln!("replay: cannot rebuild the case");
+                std::process::exit(2);
+            }
+        }
+        ctx.finish_replay(acc);
+    }
+
+    ctx.assume("a checkpoint is taken only when run(P1) returned without a fatal error and with all input consumed (the property's precondition); programs whose P1 ends in an error are skipped at that boundary");
+    ctx.assume("what is serde(skip) by design is re-attached after loading exactly as vtex::checkpoint does: the in-memory file system (same Rc), a fresh scripted terminal with no lines, log sinks, the step budget, the working directory");
+    ctx.assume("the reference behaviour is the same VM continuing without a checkpoint (run(P1); run(P2;Q)), which is the property's statement; the single-source run(P;Q) is compared too, and a difference caused by splitting the source alone (the last command of P1 scans past its line end, so input is not exhausted at that boundary in the single-source run) is counted in 'split_alone_changes_behaviour' and as an outcome class, never attributed to serialisation");
+    ctx.assume("line 0 of every fragment program pre-defines the names that the observer reads with \\the (\\f \\g \\i \\hh \\n \\arr): \\the of an undefined name is a todo!() in texcraft (C09); the first checkpoint is after line 1");
+    ctx.assume("oracle 2 compares canonical JSON: the macro table referenced by index and the per-level lists of the save stack are hash-ordered in the subject and are compared as (multi)sets");
+    ctx.assume("hash order inside the subject cannot be seeded: a failing program is re-executed 5 times and reported if any execution fails");
+    ctx.assume("X (outside): checkpoints with pending input; \\dump is not a built-in");
+
+    let all: Vec<usize> = (0..FRAGS.len()).collect();
+    let core: Vec<usize> = (0..FRAGS.len()).filter(|i| FRAGS[*i].core).collect();
+    let quick = ctx.quick();
+
+    // F1: single fragments, all oracles
+    run_frag_family(&mut ctx, "singles-full", &format!("every program of 1 fragment ({} one-line fragments); checkpoint after the prelude line and after the fragment; JSON, MessagePack, bincode; canonical-JSON oracle after the fragment", all.len()), all.clone(), 1, JsonOracle::Always, false);
+    // F2: all pairs over the full alphabet, both boundaries, three formats
+    run_frag_family(
+        &mut ctx,
+        "pairs-full",
+        &format!("every program of 2 fragments over the full alphabet ({} fragments); checkpoint after line 1 and after line 2; three formats; canonical-JSON oracle at the last boundary {}", all.len(), if quick { "when both fragments are core fragments" } else { "of every program" }),
+        all.clone(),
+        2,
+        if quick { JsonOracle::CoreOnly } else { JsonOracle::Always },
+        false,
+    );
+    // F3: triples (and 4-line programs)
+    if quick {
+        run_frag_family(&mut ctx, "triples-core", &format!("every program of 3 fragments over the core alphabet ({} fragments, one per state component); checkpoint after each of the 3 lines; three formats", core.len()), core.clone(), 3, JsonOracle::Never, false);
+    } else {
+        run_frag_family(&mut ctx, "triples-full", &format!("every program of 3 fragments over the full alphabet ({} fragments); checkpoint after each of the 3 lines; three formats; canonical-JSON oracle at the last boundary of the all-core programs", all.len()), all.clone(), 3, JsonOracle::CoreOnly, false);
+        run_frag_family(&mut ctx, "quads-core", &format!("every program of 4 fragments over the core alphabet ({} fragments); checkpoint after each of the 4 lines; three formats", core.len()), core.clone(), 4, JsonOracle::Never, false);
+    }
+    // F4: open \read streams
+    {
+        let len = ctx.pick(3usize, 4usize);
+        let k = STREAM_STEPS.len() as u64;
+        let n = k.pow(len as u32);
+        ctx.family("open-read-streams", &format!("every sequence of {len} stream steps over {k} steps (\\openin on two streams, \\read incl. a multi-line brace group and inside a TeX group, \\global\\read, \\ifeof, \\closein, \\input) on files f.tex (4 lines, lines 2-3 one brace group) and g.tex (3 plain lines, no final newline); checkpoint after every line; three formats"), n, |idx, acc| {
+            let d = vcore::digits(idx, &vec![k; len]);
+            match stream_case(&d) {
+                None => acc.skipped += 1,
+                Some(case) => {
+                    let opened = |upto: usize| d[..upto].iter().any(|x| *x <= 1);
+                    let mut nt = 0;
+                    for b in 1..=case.p.len() {
+                        if opened(b) {
+                            nt += 1;
+                            acc.count("open_read_stream");
+                        }
+                        if d[..b].iter().any(|x| *x == 2 || *x == 3 || *x == 7) && opened(b) {
+                            acc.count("stream_positioned_mid_file");
+                        }
+                    }
+                    run_case(idx, &case, nt, acc);
+                    if idx % 499 == 250 {
+                        acc.sample(idx, || json!({"family": "open-read-streams", "P": case.p, "Q": case.q}));
+                    }
+                }
+            }
+        });
+    }
+
+    for (c, m) in [
+        ("checkpoints", "line boundaries at which a checkpoint was taken"),
+        ("round_trips", "serialise+deserialise round trips executed"),
+        ("json_roundtrips_compared", "restored VMs compared with the original as canonical JSON"),
+        ("save_stack_nonempty_at_checkpoint", "a checkpoint inside a group that holds a saved value"),
+        ("open_group_at_checkpoint", "a checkpoint inside an open group"),
+        ("open_conditional_at_checkpoint", "a checkpoint inside an open conditional"),
+        ("macro_shared_by_two_names", "one macro reachable through two names (Rc de-duplication path)"),
+        ("alias_of_expansion_primitive", "\\let alias of an expansion primitive"),
+        ("alias_of_execution_primitive", "\\let alias of an execution primitive"),
+        ("alias_of_character_token", "\\let alias of a character token"),
+        ("alias_of_register", "\\countdef/\\toksdef alias"),
+        ("active_character_definition", "definition of an active character"),
+        ("high_code_table_entry", "\\catcode/\\mathcode of a character above 127"),
+        ("open_read_stream", "an \\openin stream is open at the checkpoint"),
+        ("stream_positioned_mid_file", "a stream was read from before the checkpoint"),
+        ("font_selected", "a font selector ran before the checkpoint"),
+        ("allocated_variable", "\\newInt / \\newIntArray variable assigned"),
+        ("macro_with_parameters", "macro with delimited and undelimited parameters"),
+    ] {
+        ctx.require(c, m);
+    }
+    ctx.finish("a case is one program P (a prelude line plus 1-4 one-line fragments, or a sequence of stream steps) with its observer Q; every line boundary of P is a checkpoint, taken in JSON, MessagePack and bincode; programs are enumerated exhaustively over the fragment alphabets (index -> digits), never sampled; non-trivial = at least one checkpoint of the program is taken with an open group, an open conditional, a non-default definition or an open stream (computed from the fragments); evaluations counts programs, the counters 'checkpoints' and 'round_trips' count the faults injected");
 }
